@@ -102,4 +102,83 @@ Fixpoint insert_all (t : table) (L : Z) (keys : list Z) : outcome table :=
   | [] => Ok t
   | k :: r => match add_nogrow t L (hash k) k with Ok t' => insert_all t' L r | Stuck => Stuck | Fuel => Fuel | Exn => Exn end
   end.
+
+(* ---- round 3: full-getter call count, a throwing full getter (chained generations), removal at table level ---- *)
+
+(* was hashCodeFullGetter() called?  Decided on the GENERATED GetHashCodePart itself: the answer depends on the getter's
+   value iff the getter is used (proved: getter_used_spec) *)
+Definition getter_used (b : bucket) (i L newL slot : Z) : bool :=
+  match Gen_O2.GetHashCodePart (bst b) (bsh b) (bhp b) 0 i L newL slot,
+        Gen_O2.GetHashCodePart (bst b) (bsh b) (bhp b) 1 i L newL slot with
+  | Ok x, Ok y => negb (x =? y)
+  | _, _ => false
+  end.
+
+(* the same loops with a budget of full-getter calls: the call number budget+1 throws (a throwing hash functor); the
+   element being examined and everything after it stay where they are (pvRelocateItems() swallows the exception and
+   keeps the old generation chained).  Result: (old, new, calls made, thrown) *)
+Fixpoint migrate_bucket_c (fuel : nat) (told tnew : table) (L newL i budget calls : Z) {struct fuel}
+  : outcome (table * table * Z * bool) :=
+  match fuel with
+  | O => Fuel
+  | S f =>
+    if cnt (told i) =? 0 then Ok (told, tnew, calls, false)
+    else
+      let used := getter_used (told i) i L newL (3 - cnt (told i)) in
+      if used && (budget <=? calls) then Ok (told, tnew, calls, true)
+      else match relocate_item told tnew L newL i with
+           | Ok (told', tnew') => migrate_bucket_c f told' tnew' L newL i budget (if used then calls + 1 else calls)
+           | Stuck => Stuck | Fuel => Fuel | Exn => Exn
+           end
+  end.
+
+Fixpoint migrate_from_c (n : nat) (told tnew : table) (L newL i budget calls : Z) {struct n}
+  : outcome (table * table * Z * bool) :=
+  match n with
+  | O => Ok (told, tnew, calls, false)
+  | S m => match migrate_bucket_c 4 told tnew L newL i budget calls with
+           | Ok (told', tnew', calls', thrown) =>
+               if thrown then Ok (told', tnew', calls', true)
+               else migrate_from_c m told' tnew' L newL (i + 1) budget calls'
+           | Stuck => Stuck | Fuel => Fuel | Exn => Exn
+           end
+  end.
+
+(* pvRelocateItems(buckets) for a chain of older generations, oldest first, all into the newest table *)
+Fixpoint migrate_gens (gens : list (table * Z)) (tnew : table) (newL budget calls : Z)
+  : outcome (list (table * Z) * table * Z * bool) :=
+  match gens with
+  | [] => Ok ([], tnew, calls, false)
+  | (told, L) :: r =>
+    match migrate_from_c (Z.to_nat (2 ^ L)) told tnew L newL 0 budget calls with
+    | Ok (told', tnew', calls', thrown) =>
+        if thrown then Ok ((told', L) :: r, tnew', calls', true)
+        else match migrate_gens r tnew' newL budget calls' with
+             | Ok (r', t2, c2, th2) => Ok (r', t2, c2, th2)
+             | Stuck => Stuck | Fuel => Fuel | Exn => Exn
+             end
+    | Stuck => Stuck | Fuel => Fuel | Exn => Exn
+    end
+  end.
+
+(* HashSet::Remove of the element in (bucket b, slot): the generated bucket Remove; the itemReplacer moves the key of the
+   lowest occupied slot into the freed one *)
+Definition remove_at (t : table) (b slot : Z) : outcome table :=
+  let bk := t b in
+  match Gen_O2.Remove (bst bk) (bsh bk) (bhp bk) slot with
+  | Ok (_, st', sh', hp') => Ok (tupd t b (mkB st' sh' hp' (upd (bky bk) slot (bky bk (3 - cnt bk)))))
+  | Stuck => Stuck | Fuel => Fuel | Exn => Exn
+  end.
 End Reloc.
+
+(* where is a key stored? (used by the driver to replay set.Remove(key)) *)
+Fixpoint locate_from (n : nat) (t : table) (i key : Z) : option (Z * Z) :=
+  match n with
+  | O => None
+  | S m =>
+    let b := t i in let c := cnt b in
+    if (3 - c <=? 2) && (bky b 2 =? key) then Some (i, 2)
+    else if (3 - c <=? 1) && (bky b 1 =? key) then Some (i, 1)
+    else if (3 - c <=? 0) && (bky b 0 =? key) then Some (i, 0)
+    else locate_from m t (i + 1) key
+  end.
